@@ -639,7 +639,7 @@ func c19ConfusionOptions() []*storage.LookupOptions {
 	}
 	return []*storage.LookupOptions{
 		storage.DefaultLookup,
-		{MaxElements: 1}, {MaxElements: 2}, {MaxElements: 1, Offset: 1}, {MaxElements: 1, Offset: 2}, {MaxElements: 2, Offset: 1},
+		{MaxElements: 1}, {MaxElements: 2}, {MaxElements: 1, Offset: 1}, {MaxElements: 1, Offset: 2}, {MaxElements: 2, Offset: 1}, {Offset: 1}, {Offset: 2},
 		{LowerAnchor: &t1}, {LowerAnchor: &t2}, {LowerAnchor: &t2z}, {UpperAnchor: &t2}, {UpperAnchor: &t1}, {UpperAnchor: &t3}, {UpperAnchor: &whole},
 		{LowerAnchor: &t1, UpperAnchor: &t2}, {LowerAnchor: &t2, UpperAnchor: &t1}, {LowerAnchor: &t2, UpperAnchor: &t2},
 		{LatestAnchor: true}, {LatestAnchor: true, MaxElements: 1},
